@@ -5,7 +5,7 @@ CONSTANTS
   K = {0, 1}
   MaxRows = 3
   MaxVal = 3
-  Modes2 = {"plain", "replace"}
+  Modes2 = {"plain", "ignore"}
   MaxId = 6
 VIEW View
 CONSTRAINT Bounded
